@@ -126,6 +126,31 @@ def gen_nanop(rng, cid):
     return p
 
 
+def gen_zerosign(rng, cid):
+    """free variables under operations that tell +0 from -0 (atan2 across its branch cut, 1 / v): an update that only
+    flips the sign of a zero must reach every evaluator"""
+    p = exprlib.Prog(cid)
+    ax = [p.emit("x", "axis"), p.emit("y", "axis"), p.emit("z", "axis")]
+    nv = rng.randint(1, 3)
+    vs = []
+    for _ in range(nv):
+        vs.append(p.emit("var", "var")); p.nvars += 1
+    four = p.emit("const 40800000", "const")
+    root = ax[0]
+    for v in vs:
+        k = rng.random()
+        if k < 0.6:
+            t = p.emit(f"bin OP_ATAN2 {v} {p.emit(f'bin OP_SUB {ax[rng.randrange(3)]} {four}', 'tree')}", "tree")
+        elif k < 0.8:
+            t = p.emit(f"un OP_RECIP {v}", "tree")
+        else:
+            t = p.emit(f"bin OP_DIV {ax[rng.randrange(3)]} {v}", "tree")
+        root = p.emit(f"bin {rng.choice(['OP_ADD', 'OP_ADD', 'OP_MIN', 'OP_MAX'])} {root} {t}", "tree")
+    p.root = root
+    p.zero_values = True
+    return p
+
+
 def gen_history(rng, p, nq):
     toks = []
     kinds = set()
@@ -166,7 +191,8 @@ def gen_history(rng, p, nq):
         elif r < 0.87 and p.nvars:
             q = "G " + " ".join(f2h(v) for v in pt())
         elif r < 0.93 and p.nvars:
-            q = f"SV {rng.randrange(p.nvars)} {f2h(rng.choice([0.0, 1.0, rng.uniform(-2, 2)]))}"
+            vals = [0.0, -0.0, 0.0, -0.0, 1.0] if getattr(p, "zero_values", False) else [0.0, 1.0, -0.0, rng.uniform(-2, 2)]
+            q = f"SV {rng.randrange(p.nvars)} {f2h(rng.choice(vals))}"
         elif r < 0.96 and p.nvars:
             n = rng.randint(1, p.nvars)
             q = f"UV {n} " + " ".join(f"{rng.randrange(p.nvars)} {f2h(rng.choice([0.0, 1.0, rng.uniform(-2, 2)]))}" for _ in range(n))
@@ -191,7 +217,7 @@ def run(replay=None):
     for k in range(500 if quick else 6000):
         r = ck.rng.random()
         if r < 0.08:
-            p = gen_manyvars(ck.rng, f"h{k}")
+            p = gen_manyvars(ck.rng, f"h{k}") if ck.rng.random() < 0.6 else gen_zerosign(ck.rng, f"h{k}")
         elif r < 0.2:
             p = gen_nanop(ck.rng, f"h{k}")
         elif r < 0.26:
